@@ -1,9 +1,17 @@
-(* OctSound.v — property C12 for the octagon specification (Dom/Oct.v): SOUNDNESS of every
-   operation over the integers, for all dimensions, constants and histories (every derived
-   bound is implied by the constraints, including the integer tightening and the
-   strengthening through the unary bounds; bottom only if there is no integer point), and the
-   statement of exactness [C12_oct_exact_statement] (completeness of the tight closure), of
-   which the soundness half is proved here. *)
+(* OctSound.v — property C12 for the octagon specification (Dom/Oct.v) over the integers, for
+   all dimensions, constants and histories:
+   SOUNDNESS of every operation (every derived bound is implied by the constraints, including
+   the integer tightening and the strengthening through the unary bounds; bottom only if there
+   is no integer point), and EXACTNESS [oct_exact : C12_oct_exact_statement]:
+     - the invariant [ozwf] (closed, coherent, unary entries even, strongly coherent) holds for
+       top and is kept by every operation; the tight closure (tighten + test + strengthen) of a
+       closed coherent matrix satisfies it (Bagnara-Hill-Zaffanella);
+     - a closed coherent matrix whose tightened unary bounds are feasible has an integer point
+       (variables are given values one by one), and every entry of a matrix satisfying the
+       invariant is attained by an integer point (parity argument on the paths through the two
+       added edges);
+     - hence bottom <-> unsatisfiable, entails c <-> every integer point satisfies c, join is
+       the least upper bound, assume / meet / forget / the assignments of the language are exact. *)
 From Coq Require Import ZArith NArith List Bool Lia Arith.
 From CrabV Require Import Ir.Syntax Dom.Zone Dom.ZoneSound Dom.Oct.
 Import ListNotations.
@@ -18,8 +26,6 @@ Arguments pairs : simpl never.
 Definition oval (s : store) (i : nat) : Z :=
   if Nat.even i then s (N.of_nat (Nat.div2 i)) else - s (N.of_nat (Nat.div2 i)).
 
-Definition ggam (g : nat -> Z) (z : zone) : Prop :=
-  match z with ZBot => False | ZM m => gfun (mget m) g end.
 Definition ogamma (z : zone) (s : store) : Prop := ggam (oval s) z.
 
 Lemma div2_double_nat k : Nat.div2 (2 * k) = k.
@@ -349,13 +355,1238 @@ Proof.
   - intros a b s. apply o_meet_sound.
 Qed.
 
-(* ------------------------------------------------------------------ exactness (statement) *)
+(* ------------------------------------------------------------------ exactness *)
+(* constraints of the language over the variables of the matrix (at least one variable) *)
 Definition o_ok (n : nat) (c : lincst) : Prop :=
-  exists es, oct_edges c = Some es /\ Forall (edge_in n) es.
+  le_terms (lc_exp c) <> [] /\ exists es, oct_edges c = Some es /\ Forall (edge_in n) es.
+(* assignments of the language: x := k, x := +-y + k (y <> x), x := x + k *)
 Definition oa_ok (n : nat) (x : var) (e : linexp) : Prop :=
   (nnode x < n)%nat /\
   (le_terms e = [] \/
    exists c y, le_terms e = [(c, y)] /\ unit_coef c = true /\ (nnode y < n)%nat /\ (x <> y \/ c = 1)).
+
+(* ------------------------------------------------------------------ bar *)
+Lemma bar_double k : bar (2 * k) = S (2 * k).
+Proof. unfold bar. rewrite even_double. reflexivity. Qed.
+Lemma bar_succ_double k : bar (S (2 * k)) = (2 * k)%nat.
+Proof. unfold bar. rewrite even_succ_double. reflexivity. Qed.
+
+Lemma bar_invol i : bar (bar i) = i.
+Proof.
+  destruct (nat_parity i) as [k [->| ->]].
+  - rewrite bar_double, bar_succ_double. reflexivity.
+  - rewrite bar_succ_double, bar_double. reflexivity.
+Qed.
+
+Lemma bar_neq i : bar i <> i.
+Proof.
+  destruct (nat_parity i) as [k [->| ->]]; rewrite ?bar_double, ?bar_succ_double; lia.
+Qed.
+
+Lemma bar_lt n i : Nat.even n = true -> ((bar i < n)%nat <-> (i < n)%nat).
+Proof.
+  intros E. destruct (Nat.even_spec n) as [X _]. destruct (X E) as [h ->].
+  destruct (nat_parity i) as [k [->| ->]]; rewrite ?bar_double, ?bar_succ_double; lia.
+Qed.
+
+Lemma bar_inj i j : bar i = bar j -> i = j.
+Proof. intros H. rewrite <- (bar_invol i), <- (bar_invol j). congruence. Qed.
+
+(* ------------------------------------------------------------------ invariants *)
+Definition coherent (f : nat -> nat -> wt) : Prop := forall i j, f i j = f (bar j) (bar i).
+Definition tight (f : nat -> nat -> wt) : Prop :=
+  forall i k, f i (bar i) = Some k -> exists h, k = 2 * h.
+Definition scoh (f : nat -> nat -> wt) : Prop :=
+  forall i j, wle (f i j) (whalf (wadd (f i (bar i)) (f (bar j) j))).
+
+Definition owf (n : nat) (m : mat) : Prop :=
+  mwf n m /\ coherent (mget m) /\ tight (mget m) /\ scoh (mget m).
+Definition ozwf (n : nat) (z : zone) : Prop :=
+  match z with ZBot => True | ZM m => owf n m end.
+
+(* the mirrored valuation *)
+Definition flip (g : nat -> Z) : nat -> Z := fun i => - g (bar i).
+
+Lemma flip_flip g i : flip (flip g) i = g i.
+Proof. unfold flip. rewrite bar_invol. lia. Qed.
+
+Lemma flip_oval s i : flip (oval s) i = oval s i.
+Proof. unfold flip. rewrite oval_bar. lia. Qed.
+
+Lemma coherent_flip f g : coherent f -> gfun f g -> gfun f (flip g).
+Proof.
+  intros C G i j k E. unfold flip. rewrite (C i j) in E. specialize (G _ _ _ E). lia.
+Qed.
+
+(* a closed matrix whose solutions are closed under mirroring is coherent *)
+Lemma coherent_of_flip n m : Nat.even n = true -> mwf n m ->
+  (forall g, gfun (mget m) g -> gfun (mget m) (flip g)) -> coherent (mget m).
+Proof.
+  intros En W H.
+  set (f' := fun i j => mget m (bar j) (bar i)).
+  assert (W' : mwf n (tab n f')).
+  { destruct W as [S [D C]]. split; [apply tab_support|]. split.
+    - intros i Hi. rewrite mget_tab. pose proof Hi as Hi'. apply Nat.ltb_lt in Hi'. rewrite Hi'. simpl.
+      unfold f'. apply D. apply bar_lt; auto.
+    - apply closed_tab. intros i j k. unfold f'.
+      pose proof (C (bar j) (bar i) (bar k)) as X. revert X.
+      generalize (mget m (bar j) (bar i)) (mget m (bar j) (bar k)) (mget m (bar k) (bar i)). wt_crush. }
+  assert (S' : support n f').
+  { intros i j Hij. unfold f'. apply (proj1 W). destruct Hij as [Hi|Hj]; [right|left].
+    - pose proof (bar_lt n i En). lia.
+    - pose proof (bar_lt n j En). lia. }
+  assert (EQ : forall g, gfun (mget m) g <-> gfun (mget (tab n f')) g).
+  { intros g. rewrite (gfun_tab n f' g S'). split.
+    - intros G i j k E. unfold f' in E. specialize (H g G _ _ _ E). unfold flip in H.
+      rewrite !bar_invol in H. lia.
+    - intros G. assert (G' : gfun (mget m) (flip g)).
+      { intros i j k E. unfold flip. pose proof (G (bar j) (bar i) k) as X. unfold f' in X.
+        rewrite !bar_invol in X. specialize (X E). lia. }
+      specialize (H _ G'). intros i j k E. specialize (H i j k E). rewrite !flip_flip in H. auto. }
+  intros i j. rewrite (mwf_unique n m (tab n f') W W' EQ i j). rewrite tab_ext; auto.
+Qed.
+
+Ltac wt_crush2 := intros; wt_destruct; cbn [wle wadd wmin wmax whalf] in *; try tauto; try lia.
+
+(* ------------------------------------------------------------------ tight closure of a closed coherent matrix *)
+Definition wdbl (a : wt) : wt := match a with Some k => Some (2 * k) | None => None end.
+Ltac wt_crush3 := intros; wt_destruct; cbn [wle wadd wmin wmax whalf wdbl] in *; try tauto; try lia.
+
+Section Tighten.
+  Variable f : nat -> nat -> wt.
+  Hypothesis C : closed f.
+  Hypothesis Co : coherent f.
+
+  Definition uhalf (i : nat) : wt := match f i (bar i) with Some k => Some (k / 2) | None => None end.
+  Definition Tf (i j : nat) : wt := if Nat.eqb j (bar i) then wdbl (uhalf i) else f i j.
+  Definition Sf (i j : nat) : wt := wmin (Tf i j) (wadd (uhalf i) (uhalf (bar j))).
+
+  Hypothesis Feas : forall i, wle (Some 0) (wadd (uhalf i) (uhalf (bar i))).
+
+  Lemma Tf_le i j : wle (Tf i j) (f i j).
+  Proof.
+    unfold Tf, uhalf. destruct (Nat.eqb_spec j (bar i)).
+    - subst. destruct (f i (bar i)) as [k|]; cbn [wdbl wle]; auto.
+      apply Z.mul_div_le. lia.
+    - apply wle_refl.
+  Qed.
+
+  Lemma half_step a b : (a <= 2 * b + 0)%Z -> True. Proof. auto. Qed.
+
+  (* u i <= f i k + u k *)
+  Lemma A1 i k : wle (uhalf i) (wadd (f i k) (uhalf k)).
+  Proof.
+    unfold uhalf. pose proof (C i (bar i) k) as H1. pose proof (C k (bar i) (bar k)) as H2.
+    rewrite (Co (bar k) (bar i)) in H2. rewrite !bar_invol in H2.
+    revert H1 H2. generalize (f i (bar i)) (f i k) (f k (bar i)) (f k (bar k)).
+    intros a b c d. destruct a as [a|], b as [b|], c as [c|], d as [d|]; simpl; try tauto.
+    intros H1 H2. assert (a <= 2 * b + d) by lia.
+    assert (a / 2 <= (2 * b + d) / 2) by (apply Z.div_le_mono; lia).
+    replace (2 * b + d) with (b * 2 + d) in H0 by lia. rewrite Z.div_add_l in H0 by lia. lia.
+  Qed.
+
+  (* u (bar j) <= u (bar k) + f k j *)
+  Lemma A2 k j : wle (uhalf (bar j)) (wadd (uhalf (bar k)) (f k j)).
+  Proof.
+    pose proof (A1 (bar j) (bar k)) as H. rewrite (Co (bar j) (bar k)) in H. rewrite !bar_invol in H.
+    revert H. generalize (uhalf (bar j)) (uhalf (bar k)) (f k j). wt_crush.
+  Qed.
+
+  Lemma Sf_closed : closed Sf.
+  Proof.
+    intros i j k. unfold Sf.
+    pose proof (Feas k) as Fk. pose proof (Feas i) as Fi.
+    pose proof (A1 i k) as P1. pose proof (A2 k j) as P2.
+    pose proof (Tf_le i j) as L. pose proof (C i j k) as Tr.
+    unfold Tf in *.
+    destruct (Nat.eqb_spec k (bar i)) as [Ek|Ek]; destruct (Nat.eqb_spec j (bar k)) as [Ej|Ej].
+    - (* k = bar i, j = bar k = i *)
+      subst k. subst j. rewrite bar_invol in *.
+      revert Fi L. generalize (uhalf i) (uhalf (bar i)) (f i i).
+      destruct (Nat.eqb i (bar i)); wt_crush3.
+    - subst k. rewrite bar_invol in *.
+      pose proof (A2 (bar i) j) as P3. rewrite bar_invol in P3.
+      revert Fi P3 L. generalize (uhalf i) (uhalf (bar i)) (uhalf (bar j)) (f (bar i) j) (f i j).
+      destruct (Nat.eqb j (bar i)); wt_crush3.
+    - subst j. rewrite bar_invol in *.
+      revert Fk P1 L. generalize (uhalf i) (uhalf k) (uhalf (bar k)) (f i k) (f i (bar k)).
+      destruct (Nat.eqb (bar k) (bar i)); wt_crush3.
+    - revert Fk P1 P2 L Tr.
+      generalize (uhalf i) (uhalf k) (uhalf (bar k)) (uhalf (bar j)) (f i k) (f k j) (f i j).
+      destruct (Nat.eqb j (bar i)); wt_crush3.
+  Qed.
+End Tighten.
+
+Lemma whalf_dbl a b : whalf (wadd (wdbl a) (wdbl b)) = wadd a b.
+Proof.
+  destruct a as [a|], b as [b|]; cbn [wdbl wadd whalf]; auto. f_equal.
+  replace (2 * a + 2 * b) with ((a + b) * 2) by lia. apply Z.div_mul. lia.
+Qed.
+
+Section CloseSpec.
+  Variables (n : nat) (m : mat).
+  Hypothesis En : Nat.even n = true.
+  Hypothesis W : mwf n m.
+  Hypothesis Co : coherent (mget m).
+  Let f := mget m.
+
+  Lemma uhalf_support i : (n <= i)%nat -> uhalf f i = None.
+  Proof. intros H. unfold uhalf, f. rewrite (proj1 W); auto. Qed.
+
+  Lemma tighten_entries i j : mget (tighten_m n m) i j = Tf f i j.
+  Proof.
+    unfold tighten_m. rewrite mget_tab. unfold Tf, uhalf, f.
+    destruct (Nat.ltb_spec i n), (Nat.ltb_spec j n); simpl.
+    - destruct (Nat.eqb_spec j (bar i)); auto. subst. destruct (mget m i (bar i)); reflexivity.
+    - destruct (Nat.eqb_spec j (bar i)).
+      + subst. rewrite (proj1 W i (bar i)) by auto. reflexivity.
+      + symmetry. apply (proj1 W). auto.
+    - destruct (Nat.eqb_spec j (bar i)).
+      + subst. rewrite (proj1 W i (bar i)) by auto. reflexivity.
+      + symmetry. apply (proj1 W). auto.
+    - destruct (Nat.eqb_spec j (bar i)).
+      + subst. rewrite (proj1 W i (bar i)) by auto. reflexivity.
+      + symmetry. apply (proj1 W). auto.
+  Qed.
+
+  Lemma Tf_unary i : Tf f i (bar i) = wdbl (uhalf f i).
+  Proof. unfold Tf. rewrite Nat.eqb_refl. reflexivity. Qed.
+  Lemma Tf_unary' j : Tf f (bar j) j = wdbl (uhalf f (bar j)).
+  Proof. unfold Tf. rewrite bar_invol, Nat.eqb_refl. reflexivity. Qed.
+
+  Lemma strengthen_entries i j : mget (strengthen_m n (tighten_m n m)) i j = Sf f i j.
+  Proof.
+    unfold strengthen_m. rewrite mget_tab. rewrite !tighten_entries.
+    rewrite Tf_unary, Tf_unary', whalf_dbl. unfold Sf.
+    destruct (Nat.ltb_spec i n), (Nat.ltb_spec j n); simpl; auto.
+    - assert (Tf f i j = None).
+      { rewrite <- tighten_entries. apply tab_support. auto. }
+      rewrite H1. rewrite (uhalf_support (bar j)); [destruct (uhalf f i); reflexivity|].
+      pose proof (bar_lt n j En). lia.
+    - assert (Tf f i j = None).
+      { rewrite <- tighten_entries. apply tab_support. auto. }
+      rewrite H1. rewrite (uhalf_support i); auto.
+    - assert (Tf f i j = None).
+      { rewrite <- tighten_entries. apply tab_support. auto. }
+      rewrite H1. rewrite (uhalf_support i); auto.
+  Qed.
+
+  Lemma feas_of_check :
+    unary_infeasible n (tighten_m n m) = false ->
+    forall i, wle (Some 0) (wadd (uhalf f i) (uhalf f (bar i))).
+  Proof.
+    intros U i. destruct (Nat.lt_ge_cases i n) as [Hi|Hi].
+    - unfold unary_infeasible in U.
+      assert (X : negb (wleb (Some 0) (wadd (mget (tighten_m n m) i (bar i)) (mget (tighten_m n m) (bar i) i))) = false).
+      { destruct (negb _) eqn:E; auto. exfalso.
+        assert (Y : existsb (fun i => negb (wleb (Some 0) (wadd (mget (tighten_m n m) i (bar i)) (mget (tighten_m n m) (bar i) i)))) (seq 0 n) = true).
+        { apply existsb_exists. exists i. split; auto. apply in_seq. lia. }
+        congruence. }
+      apply negb_false_iff in X. apply wleb_spec in X. rewrite !tighten_entries in X.
+      rewrite Tf_unary, Tf_unary' in X. revert X.
+      generalize (uhalf f i) (uhalf f (bar i)). wt_crush3.
+    - rewrite (uhalf_support i) by auto. exact I.
+  Qed.
+
+  Lemma check_of_feas :
+    (forall i, wle (Some 0) (wadd (uhalf f i) (uhalf f (bar i)))) ->
+    unary_infeasible n (tighten_m n m) = false.
+  Proof.
+    intros H. unfold unary_infeasible. destruct (existsb _ _) eqn:E; auto. exfalso.
+    apply existsb_exists in E. destruct E as [i [_ E]]. apply negb_true_iff in E.
+    assert (X : wleb (Some 0) (wadd (mget (tighten_m n m) i (bar i)) (mget (tighten_m n m) (bar i) i)) = true); [|congruence].
+    apply wleb_spec. rewrite !tighten_entries, Tf_unary, Tf_unary'. specialize (H i). revert H.
+    generalize (uhalf f i) (uhalf f (bar i)). wt_crush3.
+  Qed.
+
+  Lemma wadd_comm (a b : wt) : wadd a b = wadd b a.
+  Proof. destruct a, b; cbn [wadd]; auto. f_equal. lia. Qed.
+
+  Lemma Sf_unary i : Sf f i (bar i) = wdbl (uhalf f i).
+  Proof.
+    unfold Sf. rewrite Tf_unary, bar_invol. destruct (uhalf f i) as [a|]; cbn [wdbl wadd wmin]; auto.
+    f_equal. lia.
+  Qed.
+  Lemma Sf_unary' j : Sf f (bar j) j = wdbl (uhalf f (bar j)).
+  Proof. pose proof (Sf_unary (bar j)) as H. rewrite bar_invol in H. exact H. Qed.
+
+  (* the result of the tight closure satisfies the whole invariant *)
+  Lemma o_close_owf : ozwf n (o_close n (ZM m)).
+  Proof.
+    cbn [o_close]. destruct (unary_infeasible n (tighten_m n m)) eqn:U; [exact I|].
+    pose proof (feas_of_check U) as Fe. cbn [ozwf]. unfold owf, mwf.
+    assert (EQ : forall i j, mget (strengthen_m n (tighten_m n m)) i j = Sf f i j) by apply strengthen_entries.
+    destruct W as [S [D C]].
+    repeat split.
+    - apply tab_support.
+    - intros i Hi. rewrite EQ. unfold Sf, Tf. pose proof (bar_neq i) as N.
+      destruct (Nat.eqb_spec i (bar i)); [congruence|].
+      assert (Dii : f i i = Some 0) by (apply D; auto). rewrite Dii.
+      specialize (Fe i). revert Fe. generalize (uhalf f i) (uhalf f (bar i)).
+      wt_crush3; try reflexivity; f_equal; lia.
+    - intros i j k. rewrite !EQ. apply (Sf_closed f C Co Fe).
+    - intros i j. rewrite !EQ. unfold Sf. rewrite bar_invol.
+      rewrite (wadd_comm (uhalf f (bar j)) (uhalf f i)). f_equal.
+      unfold Tf. rewrite bar_invol.
+      destruct (Nat.eqb_spec j (bar i)) as [E|E].
+      + subst j. rewrite Nat.eqb_refl, bar_invol. reflexivity.
+      + destruct (Nat.eqb_spec (bar i) j); [congruence|]. apply Co.
+    - intros i k. rewrite EQ, Sf_unary. destruct (uhalf f i) as [a|]; cbn [wdbl]; [|discriminate].
+      intros H. inversion H. exists a. reflexivity.
+    - intros i j. rewrite !EQ. rewrite Sf_unary, Sf_unary', whalf_dbl. unfold Sf.
+      generalize (Tf f i j) (wadd (uhalf f i) (uhalf f (bar j))). wt_crush3.
+  Qed.
+
+  (* ... and has the integer points of the matrix it was computed from *)
+  Lemma Sf_le i j : wle (Sf f i j) (f i j).
+  Proof.
+    unfold Sf. pose proof (Tf_le f i j) as L. revert L.
+    generalize (Tf f i j) (wadd (uhalf f i) (uhalf f (bar j))) (f i j). wt_crush3.
+  Qed.
+
+  Lemma o_close_gamma s : ogamma (o_close n (ZM m)) s <-> gfun f (oval s).
+  Proof.
+    split.
+    - cbn [o_close]. destruct (unary_infeasible n (tighten_m n m)); [intros []|].
+      unfold ogamma. cbn [ggam]. intros G i j k E. pose proof (Sf_le i j) as L. rewrite E in L.
+      pose proof (G i j) as G1. rewrite strengthen_entries in G1.
+      destruct (Sf f i j) as [k'|]; cbn [wle] in L; [|tauto]. specialize (G1 _ eq_refl). lia.
+    - intros G. apply (o_close_sound n (ZM m) s). exact G.
+  Qed.
+End CloseSpec.
+
+(* ------------------------------------------------------------------ integer points *)
+Definition varof (i : nat) : var := N.of_nat (Nat.div2 i).
+
+Lemma varof_pnode v : varof (pnode v) = v.
+Proof. unfold varof, pnode. rewrite div2_double_nat, N2Nat.id. reflexivity. Qed.
+Lemma varof_nnode v : varof (nnode v) = v.
+Proof. unfold varof, nnode. rewrite div2_succ_double_nat, N2Nat.id. reflexivity. Qed.
+Lemma varof_bar i : varof (bar i) = varof i.
+Proof.
+  unfold varof. destruct (nat_parity i) as [k [->| ->]].
+  - rewrite bar_double, div2_succ_double_nat, div2_double_nat. reflexivity.
+  - rewrite bar_succ_double, div2_succ_double_nat, div2_double_nat. reflexivity.
+Qed.
+Lemma node_cases i : i = pnode (varof i) \/ i = nnode (varof i).
+Proof.
+  unfold varof, pnode, nnode. destruct (nat_parity i) as [k [->| ->]].
+  - left. rewrite div2_double_nat, Nat2N.id. reflexivity.
+  - right. rewrite div2_succ_double_nat, Nat2N.id. reflexivity.
+Qed.
+
+Lemma oval_upd_other s v X i : varof i <> v -> oval (upd s v X) i = oval s i.
+Proof. intros H. unfold oval, upd. fold (varof i). destruct (N.eqb_spec (varof i) v); congruence. Qed.
+Lemma oval_upd_p s v X : oval (upd s v X) (pnode v) = X.
+Proof. rewrite oval_pnode. apply upd_same. Qed.
+Lemma oval_upd_n s v X : oval (upd s v X) (nnode v) = - X.
+Proof. rewrite oval_nnode, upd_same. reflexivity. Qed.
+
+Lemma fold_min_le us : forall a u, In u (a :: us) -> fold_right Z.min a us <= u.
+Proof.
+  induction us as [|b us IH]; intros a u I; simpl in *.
+  - destruct I as [<-|[]]; lia.
+  - destruct I as [<-|[<-|I]].
+    + specialize (IH a a (or_introl eq_refl)). lia.
+    + lia.
+    + specialize (IH a u (or_intror I)). lia.
+Qed.
+Lemma fold_max_ge ls : forall a l, In l (a :: ls) -> l <= fold_right Z.max a ls.
+Proof.
+  induction ls as [|b ls IH]; intros a l I; simpl in *.
+  - destruct I as [<-|[]]; lia.
+  - destruct I as [<-|[<-|I]].
+    + specialize (IH a a (or_introl eq_refl)). lia.
+    + lia.
+    + specialize (IH a l (or_intror I)). lia.
+Qed.
+Lemma fold_max_in ls : forall a, In (fold_right Z.max a ls) (a :: ls).
+Proof.
+  induction ls as [|b ls IH]; intros a; simpl.
+  - auto.
+  - destruct (Z.max_spec b (fold_right Z.max a ls)) as [[_ M]|[_ M]]; rewrite M.
+    + destruct (IH a) as [E|I]; auto.
+    + auto.
+Qed.
+
+Lemma between (lows ups : list Z) :
+  (forall l u, In l lows -> In u ups -> l <= u) ->
+  exists X, (forall l, In l lows -> l <= X) /\ (forall u, In u ups -> X <= u).
+Proof.
+  intros H. destruct lows as [|l0 lows].
+  - destruct ups as [|u0 ups].
+    + exists 0. split; intros ? [].
+    + exists (fold_right Z.min u0 ups). split; [intros ? []|]. intros u I. apply fold_min_le. auto.
+  - exists (fold_right Z.max l0 lows). split.
+    + intros l I. apply fold_max_ge. auto.
+    + intros u I. apply H; auto. apply fold_max_in.
+Qed.
+
+Section OctExtend.
+  Variable f : nat -> nat -> wt.
+  Variable n : nat.
+  Hypothesis En : Nat.even n = true.
+  Hypothesis C : closed f.
+  Hypothesis Co : coherent f.
+  Hypothesis Sup : support n f.
+
+  Definition sat_onv (L : list var) (s : store) : Prop :=
+    forall i j k, In (varof i) L -> In (varof j) L -> f i j = Some k -> oval s j - oval s i <= k.
+
+  Lemma floor_half_le a k : 2 * a <= k -> a <= k / 2.
+  Proof. intros. apply Z.div_le_lower_bound; lia. Qed.
+
+  Lemma oct_extend (L : list var) (s : store) (v : var) :
+    ~ In v L -> sat_onv L s ->
+    wle (Some 0) (wadd (uhalf f (pnode v)) (uhalf f (nnode v))) ->
+    wle (Some 0) (f (pnode v) (pnode v)) -> wle (Some 0) (f (nnode v) (nnode v)) ->
+    exists X, sat_onv (v :: L) (upd s v X).
+  Proof.
+    intros NI S Fe Dp Dn.
+    assert (Bp : bar (pnode v) = nnode v) by apply bar_pnode. assert (Bq : bar (nnode v) = pnode v) by apply bar_nnode.
+    set (NL := filter (fun a => if in_dec N.eq_dec (varof a) L then true else false) (seq 0 n)).
+    assert (InNL : forall a, In a NL <-> ((a < n)%nat /\ In (varof a) L)).
+    { intros a. unfold NL. rewrite filter_In, in_seq.
+      destruct (in_dec N.eq_dec (varof a) L); split; intros [A B]; try discriminate; split; auto; lia. }
+    set (lows := flat_map (fun a => match f (pnode v) a with Some k => [oval s a - k] | None => [] end) NL ++
+                 match f (pnode v) (nnode v) with Some k => [- (k / 2)] | None => [] end).
+    set (ups := flat_map (fun a => match f a (pnode v) with Some k => [oval s a + k] | None => [] end) NL ++
+                match f (nnode v) (pnode v) with Some k => [k / 2] | None => [] end).
+    assert (InL : forall l, In l lows <->
+              ((exists a k, In a NL /\ f (pnode v) a = Some k /\ l = oval s a - k) \/
+               (exists k, f (pnode v) (nnode v) = Some k /\ l = - (k / 2)))).
+    { intros l. unfold lows. rewrite in_app_iff, in_flat_map. split.
+      - intros [[a [Ia I]]|I].
+        + left. destruct (f (pnode v) a) as [k|] eqn:E; [|destruct I]. destruct I as [<-|[]]. exists a, k. auto.
+        + right. destruct (f (pnode v) (nnode v)) as [k|]; [|destruct I]. destruct I as [<-|[]]. exists k. auto.
+      - intros [[a [k [Ia [E ->]]]]|[k [E ->]]].
+        + left. exists a. split; auto. rewrite E. left; auto.
+        + right. rewrite E. left; auto. }
+    assert (InU : forall u, In u ups <->
+              ((exists a k, In a NL /\ f a (pnode v) = Some k /\ u = oval s a + k) \/
+               (exists k, f (nnode v) (pnode v) = Some k /\ u = k / 2))).
+    { intros u. unfold ups. rewrite in_app_iff, in_flat_map. split.
+      - intros [[a [Ia I]]|I].
+        + left. destruct (f a (pnode v)) as [k|] eqn:E; [|destruct I]. destruct I as [<-|[]]. exists a, k. auto.
+        + right. destruct (f (nnode v) (pnode v)) as [k|]; [|destruct I]. destruct I as [<-|[]]. exists k. auto.
+      - intros [[a [k [Ia [E ->]]]]|[k [E ->]]].
+        + left. exists a. split; auto. rewrite E. left; auto.
+        + right. rewrite E. left; auto. }
+    assert (BarNL : forall a, In a NL -> In (bar a) NL).
+    { intros a Ia. apply InNL in Ia. apply InNL. rewrite varof_bar. split; [apply bar_lt; tauto|tauto]. }
+    (* every lower bound is below every upper bound *)
+    assert (COMPAT : forall l u, In l lows -> In u ups -> l <= u).
+    { intros l u Il Iu. apply InL in Il. apply InU in Iu.
+      destruct Il as [[a [ka [Ia [Ea ->]]]]|[kl [El ->]]]; destruct Iu as [[b [kb [Ib [Eb ->]]]]|[ku [Eu ->]]].
+      - (* via a and b: f b a <= f b (pnode v) + f (pnode v) a *)
+        pose proof (C b a (pnode v)) as T. rewrite Eb, Ea in T. destruct (f b a) as [kba|] eqn:Eba; cbn [wadd wle] in T; [|tauto].
+        apply InNL in Ia, Ib. pose proof (S b a kba (proj2 Ib) (proj2 Ia) Eba). lia.
+      - (* via a, unary upper: 2 val a <= f (bar a) a <= 2 f (pnode v) a + f (nnode v) (pnode v) *)
+        pose proof (C (bar a) a (nnode v)) as T1. pose proof (C (nnode v) a (pnode v)) as T2.
+        rewrite (Co (bar a) (nnode v)) in T1. rewrite Bq, bar_invol in T1. rewrite Ea, Eu in *.
+        destruct (f (nnode v) a) as [kqa|] eqn:Eqa; cbn [wadd wle] in T2; [|tauto].
+        destruct (f (bar a) a) as [kaa|] eqn:Eaa; cbn [wadd wle] in T1; [|tauto].
+        pose proof (BarNL a Ia) as Iba. apply InNL in Ia, Iba.
+        pose proof (S (bar a) a kaa (proj2 Iba) (proj2 Ia) Eaa) as X. rewrite oval_bar in X.
+        assert (oval s a - ka <= ku / 2); [|lia]. apply floor_half_le. lia.
+      - (* unary lower, via b: -2 val b <= f b (bar b) <= 2 f b (pnode v) + f (pnode v) (nnode v) *)
+        pose proof (C b (bar b) (pnode v)) as T1. pose proof (C (pnode v) (bar b) (nnode v)) as T2.
+        rewrite (Co (nnode v) (bar b)) in T2. rewrite Bq, bar_invol in T2. rewrite Eb, El in *.
+        destruct (f (pnode v) (bar b)) as [kpb|] eqn:Epb; cbn [wadd wle] in T2; [|tauto].
+        destruct (f b (bar b)) as [kbb|] eqn:Ebb; cbn [wadd wle] in T1; [|tauto].
+        pose proof (BarNL b Ib) as Ibb. apply InNL in Ib, Ibb.
+        pose proof (S b (bar b) kbb (proj2 Ib) (proj2 Ibb) Ebb) as X. rewrite oval_bar in X.
+        assert (- oval s b - kb <= kl / 2); [|lia]. apply floor_half_le. lia.
+      - (* both unary *)
+        unfold uhalf in Fe. rewrite Bp, Bq in Fe. rewrite El, Eu in Fe. cbn [wadd wle] in Fe. lia. }
+    destruct (between lows ups COMPAT) as [X [LO UP]]. exists X.
+    (* the value of x respects every constraint with an assigned node and its own bounds *)
+    assert (VO : forall a, In (varof a) L -> oval (upd s v X) a = oval s a).
+    { intros a Ia. apply oval_upd_other. intros E. rewrite E in Ia. tauto. }
+    assert (Lp : forall a k, (a < n)%nat -> In (varof a) L -> f (pnode v) a = Some k -> oval s a - X <= k).
+    { intros a k Ha Ia E. assert (oval s a - k <= X); [|lia]. apply LO. apply InL. left.
+      exists a, k. split; auto. apply InNL. auto. }
+    assert (Up : forall a k, (a < n)%nat -> In (varof a) L -> f a (pnode v) = Some k -> X - oval s a <= k).
+    { intros a k Ha Ia E. assert (X <= oval s a + k); [|lia]. apply UP. apply InU. left.
+      exists a, k. split; auto. apply InNL. auto. }
+    assert (RNG : forall a b k, f a b = Some k -> (a < n /\ b < n)%nat).
+    { intros a b k E. destruct (Nat.lt_ge_cases a n), (Nat.lt_ge_cases b n); auto; rewrite Sup in E by lia; discriminate. }
+    intros i j k Ii Ij E. destruct (RNG _ _ _ E) as [Hi Hj].
+    destruct (N.eq_dec (varof i) v) as [Vi|Vi]; destruct (N.eq_dec (varof j) v) as [Vj|Vj].
+    - (* both nodes of x *)
+      destruct (node_cases i) as [Ei|Ei], (node_cases j) as [Ej|Ej]; rewrite Vi in Ei; rewrite Vj in Ej;
+        subst i j; rewrite ?oval_upd_p, ?oval_upd_n.
+      + rewrite E in Dp. cbn [wle] in Dp. lia.
+      + assert (- (k / 2) <= X) by (apply LO; apply InL; right; exists k; auto).
+        pose proof (Z.mul_div_le k 2 ltac:(lia)). lia.
+      + assert (X <= k / 2) by (apply UP; apply InU; right; exists k; auto).
+        pose proof (Z.mul_div_le k 2 ltac:(lia)). lia.
+      + rewrite E in Dn. cbn [wle] in Dn. lia.
+    - (* i is a node of x, j assigned *)
+      assert (Ij' : In (varof j) L) by (destruct Ij as [Ij|Ij]; [congruence|auto]).
+      rewrite (VO j Ij'). destruct (node_cases i) as [Ei|Ei]; rewrite Vi in Ei; subst i;
+        rewrite ?oval_upd_p, ?oval_upd_n.
+      + apply (Lp j k Hj Ij' E).
+      + (* f (nnode v) j = f (bar j) (pnode v) *)
+        rewrite (Co (nnode v) j) in E. rewrite Bq in E.
+        assert (Ib : In (varof (bar j)) L) by (rewrite varof_bar; auto).
+        pose proof (Up (bar j) k ltac:(apply bar_lt; auto) Ib E) as Y. rewrite oval_bar in Y. lia.
+    - assert (Ii' : In (varof i) L) by (destruct Ii as [Ii|Ii]; [congruence|auto]).
+      rewrite (VO i Ii'). destruct (node_cases j) as [Ej|Ej]; rewrite Vj in Ej; subst j;
+        rewrite ?oval_upd_p, ?oval_upd_n.
+      + apply (Up i k Hi Ii' E).
+      + rewrite (Co i (nnode v)) in E. rewrite Bq in E.
+        assert (Ib : In (varof (bar i)) L) by (rewrite varof_bar; auto).
+        pose proof (Lp (bar i) k ltac:(apply bar_lt; auto) Ib E) as Y. rewrite oval_bar in Y. lia.
+    - assert (Ii' : In (varof i) L) by (destruct Ii as [Ii|Ii]; [congruence|auto]).
+      assert (Ij' : In (varof j) L) by (destruct Ij as [Ij|Ij]; [congruence|auto]).
+      rewrite (VO i Ii'), (VO j Ij'). apply (S i j k Ii' Ij' E).
+  Qed.
+End OctExtend.
+
+Definition feasible (f : nat -> nat -> wt) : Prop :=
+  forall i, wle (Some 0) (wadd (uhalf f i) (uhalf f (bar i))).
+
+Lemma solution_onv f n : Nat.even n = true -> closed f -> coherent f -> support n f ->
+  (forall i, wle (Some 0) (f i i)) -> feasible f ->
+  forall L, NoDup L -> exists s, sat_onv f L s.
+Proof.
+  intros En C Co Sup D Fe L. induction L as [|v L IH]; intros ND.
+  - exists (fun _ => 0). intros i j k [].
+  - inversion ND; subst. destruct (IH H2) as [s S].
+    pose proof (Fe (pnode v)) as F. rewrite bar_pnode in F.
+    destruct (oct_extend f n En C Co Sup L s v H1 S F (D _) (D _)) as [X HX].
+    exists (upd s v X). exact HX.
+Qed.
+
+Lemma var_range_in n i : (i < n)%nat -> In (varof i) (map N.of_nat (seq 0 n)).
+Proof.
+  intros H. apply in_map_iff. exists (Nat.div2 i). split; auto. apply in_seq.
+  destruct (nat_parity i) as [k [->| ->]]; rewrite ?div2_double_nat, ?div2_succ_double_nat; lia.
+Qed.
+
+Lemma NoDup_map_of_nat l : NoDup l -> NoDup (map N.of_nat l).
+Proof.
+  intros ND. induction ND; simpl; constructor; auto.
+  intros I. apply in_map_iff in I. destruct I as [y [E Iy]]. apply Nat2N.inj in E. subst. tauto.
+Qed.
+
+(* a closed coherent matrix whose tightened unary bounds are feasible has an integer point *)
+Theorem oct_inhabited n m : Nat.even n = true -> mwf n m -> coherent (mget m) ->
+  feasible (mget m) -> exists s, gfun (mget m) (oval s).
+Proof.
+  intros En W Co Fe. destruct W as [S [D C]].
+  destruct (solution_onv (mget m) n En C Co S (mwf_diag_nonneg n m (conj S (conj D C))) Fe
+              (map N.of_nat (seq 0 n)) (NoDup_map_of_nat _ (seq_NoDup n 0))) as [s G].
+  exists s. intros i j k E.
+  destruct (Nat.lt_ge_cases i n), (Nat.lt_ge_cases j n); try (rewrite S in E by lia; discriminate).
+  apply (G i j k); auto; apply var_range_in; auto.
+Qed.
+
+(* the invariant implies feasibility *)
+Lemma owf_feasible n m : owf n m -> feasible (mget m).
+Proof.
+  intros [[S [D C]] [Co [Ti Sc]]] i. unfold uhalf.
+  pose proof (C i i (bar i)) as T.
+  destruct (Nat.lt_ge_cases i n) as [Hi|Hi].
+  - rewrite D in T by auto.
+    destruct (mget m i (bar i)) as [a|] eqn:Ea; [|exact I].
+    rewrite bar_invol. destruct (mget m (bar i) i) as [b|] eqn:Eb; cbn [wadd wle] in *; [|exact I].
+    destruct (Ti i a Ea) as [ha ->]. pose proof (Ti (bar i) b) as Tb. rewrite bar_invol in Tb.
+    destruct (Tb Eb) as [hb ->].
+    replace (2 * ha) with (ha * 2) by lia. replace (2 * hb) with (hb * 2) by lia.
+    rewrite !Z.div_mul by lia. lia.
+  - rewrite (S i (bar i)) by auto. exact I.
+Qed.
+
+Theorem oct_bottom_exact n z : Nat.even n = true -> ozwf n z ->
+  (z_is_bot z = true <-> forall s, ~ ogamma z s).
+Proof.
+  intros En W. destruct z as [|m]; simpl.
+  - split; auto.
+  - split; [discriminate|]. intros H.
+    destruct (oct_inhabited n m En (proj1 W) (proj1 (proj2 W)) (owf_feasible n m W)) as [s G].
+    destruct (H s G).
+Qed.
+
+(* ------------------------------------------------------------------ attaining the entries *)
+Lemma wmin_cases a b x : wmin a b = Some x -> a = Some x \/ b = Some x.
+Proof.
+  destruct a as [a|], b as [b|]; cbn [wmin]; intros H; inversion H; auto.
+  destruct (Z.min_spec a b) as [[_ M]|[_ M]]; rewrite M; auto.
+Qed.
+Lemma wmin_le_l a b : wle (wmin a b) a.
+Proof. destruct a as [a|], b as [b|]; cbn [wmin wle]; auto; lia. Qed.
+Lemma wmin_le_r a b : wle (wmin a b) b.
+Proof. destruct a as [a|], b as [b|]; cbn [wmin wle]; auto; lia. Qed.
+
+Section Attain.
+  Variable f : nat -> nat -> wt.
+  Hypothesis C : closed f.
+  Hypothesis Co : coherent f.
+  Hypothesis Ti : tight f.
+  Hypothesis Sc : scoh f.
+  Variables (i j : nat) (k : Z).
+  Hypothesis K : wle (Some k) (f i j).
+
+  Definition f1 := upd_f f j i (- k).
+  Definition f3 := upd_f f1 (bar i) (bar j) (- k).
+
+  (* an odd unary entry of f3 can only come from the path through one new edge *)
+  Lemma odd_entry a x : f3 a (bar a) = Some x -> Z.odd x = true ->
+    exists qv rv, f a j = Some qv /\ f i (bar a) = Some rv /\ x = qv + rv - k.
+  Proof.
+    intros E O.
+    pose proof (Sc i j) as S3.
+    assert (EV : forall b y, f b (bar b) = Some y -> Z.odd y = false).
+    { intros b y Eb. destruct (Ti b y Eb) as [h ->]. rewrite Z.odd_mul. reflexivity. }
+    assert (EV' : forall b y, f (bar b) b = Some y -> Z.odd y = false).
+    { intros b y Eb. apply (EV (bar b)). rewrite bar_invol. auto. }
+    (* the candidates *)
+    pose proof (Co a (bar i)) as C1. rewrite bar_invol in C1.       (* f a (bar i) = f i (bar a) *)
+    pose proof (Co (bar j) (bar a)) as C2. rewrite !bar_invol in C2. (* f (bar j) (bar a) = f a j *)
+    unfold f3, upd_f in E. fold (upd_f f j i (- k)) in E.
+    assert (LO : wle (f3 a (bar a)) (wadd (wadd (f a j) (Some (- k))) (f i (bar a)))).
+    { unfold f3, upd_f at 1. eapply wle_trans; [apply wmin_le_l|]. unfold f1, upd_f. apply wmin_le_r. }
+    unfold f3, upd_f at 1 in LO. fold f1 in E, LO. rewrite E in LO.
+    apply wmin_cases in E. destruct E as [E|E].
+    - (* through f1 a (bar a) *)
+      unfold f1, upd_f in E. apply wmin_cases in E. destruct E as [E|E].
+      + rewrite (EV _ _ E) in O. discriminate.
+      + destruct (f a j) as [qv|], (f i (bar a)) as [rv|]; cbn [wadd] in E; inversion E.
+        exists qv, rv. repeat split; auto. lia.
+    - (* through both new edges *)
+      unfold f1, upd_f in E. rewrite C1, C2 in E.
+      apply Z.odd_spec in O. destruct O as [h Hx].
+      assert (S3' : forall ui uj, f i (bar i) = Some ui -> f (bar j) j = Some uj -> 2 * k <= ui + uj).
+      { intros ui uj Ui Uj. rewrite Ui, Uj in S3. cbn [wadd whalf] in S3.
+        destruct (f i j) as [kij|]; cbn [wle] in *; [|tauto].
+        destruct (Ti i ui Ui) as [a1 ->]. pose proof (Ti (bar j) uj) as T2. rewrite bar_invol in T2.
+        destruct (T2 Uj) as [b1 ->]. replace (2 * a1 + 2 * b1) with ((a1 + b1) * 2) in S3 by lia.
+        rewrite Z.div_mul in S3 by lia. lia. }
+      destruct (f a j) as [qv|] eqn:Eq; destruct (f i (bar a)) as [rv|] eqn:Er;
+        destruct (f i (bar i)) as [ui|] eqn:Ui; destruct (f (bar j) j) as [uj|] eqn:Uj;
+        cbn [wadd wmin wle] in E, LO; try discriminate;
+        try (destruct (Ti i ui Ui) as [a1 Ea1]);
+        try (pose proof (Ti (bar j) uj) as T2; rewrite bar_invol in T2; destruct (T2 Uj) as [b1 Eb1]);
+        try (pose proof (S3' _ _ eq_refl eq_refl) as S4);
+        inversion E as [E'];
+        try (exists qv, rv; repeat split; auto; lia); exfalso; lia.
+  Qed.
+
+  (* hence the tightened unary bounds of f3 stay feasible *)
+  Hypothesis D3 : forall a, wle (Some 0) (wadd (f3 a (bar a)) (f3 (bar a) a)).
+
+  Lemma f3_feasible : feasible f3.
+  Proof.
+    intros a. unfold uhalf. rewrite bar_invol.
+    pose proof (D3 a) as D.
+    destruct (f3 a (bar a)) as [x|] eqn:Ex; [|exact I].
+    destruct (f3 (bar a) a) as [x'|] eqn:Ex'; [|exact I]. cbn [wadd wle] in *.
+    destruct (Z.odd x) eqn:Ox; [|
+      apply Bool.negb_true_iff in Ox; rewrite Z.negb_odd in Ox; apply Z.even_spec in Ox; destruct Ox as [h ->];
+      replace (2 * h) with (h * 2) in * by lia; rewrite Z.div_mul by lia;
+      assert (- h <= x' / 2) by (apply Z.div_le_lower_bound; lia); lia].
+    destruct (Z.odd x') eqn:Ox'; [|
+      apply Bool.negb_true_iff in Ox'; rewrite Z.negb_odd in Ox'; apply Z.even_spec in Ox'; destruct Ox' as [h ->];
+      replace (2 * h) with (h * 2) in * by lia; rewrite Z.div_mul by lia;
+      assert (- h <= x / 2) by (apply Z.div_le_lower_bound; lia); lia].
+    (* both odd: the sum cannot be 0 *)
+    destruct (odd_entry a x Ex Ox) as [qv [rv [Eq [Er Hx]]]].
+    pose proof (odd_entry (bar a) x') as OE. rewrite bar_invol in OE.
+    destruct (OE Ex' Ox') as [qv' [rv' [Eq' [Er' Hx']]]].
+    (* triangle inequalities *)
+    pose proof (C i j a) as T1. rewrite Er', Eq in T1.
+    pose proof (C i j (bar a)) as T2. rewrite Er, Eq' in T2.
+    pose proof (C i (bar i) a) as T3. rewrite Er' in T3. rewrite (Co a (bar i)), bar_invol, Er in T3.
+    pose proof (C (bar j) j a) as T4. rewrite Eq in T4. rewrite (Co (bar j) a), bar_invol, Eq' in T4.
+    pose proof (Sc i j) as S3.
+    destruct (f i j) as [kij|]; cbn [wadd wle] in *; [|tauto].
+    destruct (f i (bar i)) as [ui|] eqn:Ui; cbn [wle] in T3; [|tauto].
+    destruct (f (bar j) j) as [uj|] eqn:Uj; cbn [wle] in T4; [|tauto].
+    destruct (Ti i ui Ui) as [a1 ->]. pose proof (Ti (bar j) uj) as Tj. rewrite bar_invol in Tj.
+    destruct (Tj Uj) as [b1 ->]. cbn [wadd whalf wle] in S3.
+    replace (2 * a1 + 2 * b1) with ((a1 + b1) * 2) in S3 by lia. rewrite Z.div_mul in S3 by lia.
+    apply Z.odd_spec in Ox, Ox'. destruct Ox as [h Hh], Ox' as [h' Hh'].
+    assert (x + x' >= 1 \/ x + x' = 0) by lia. destruct H as [H|H].
+    - subst x x'.
+      assert (HD : forall z, (2 * z + 1) / 2 = z).
+      { intros z. replace (2 * z + 1) with (1 + z * 2) by lia. rewrite Z.div_add by lia. reflexivity. }
+      rewrite !HD. lia.
+    - exfalso. lia.
+  Qed.
+End Attain.
+
+Lemma upd_f_ext f g a b w : (forall x y, f x y = g x y) -> forall x y, upd_f f a b w x y = upd_f g a b w x y.
+Proof. intros H x y. unfold upd_f. rewrite !H. reflexivity. Qed.
+
+(* for every bound k below an entry there is an integer point reaching k *)
+Theorem oct_entry_ge n m i j k : Nat.even n = true -> owf n m -> (i < n)%nat -> (j < n)%nat ->
+  wle (Some k) (mget m i j) ->
+  exists s, gfun (mget m) (oval s) /\ oval s j - oval s i >= k.
+Proof.
+  intros En W Hi Hj K. destruct W as [Wm [Co [Ti Sc]]]. pose proof Wm as [S [D C]].
+  set (f := mget m) in *.
+  assert (Hbi : (bar i < n)%nat) by (apply bar_lt; auto).
+  assert (Hbj : (bar j < n)%nat) by (apply bar_lt; auto).
+  (* first edge *)
+  destruct (add_edge_m_spec_g n m j i (- k) Wm Hj Hi) as [W1 G1].
+  assert (E1 : add_edge_m n m (j, i, - k) = ZM (tab n (upd_f f j i (- k)))).
+  { unfold add_edge_m. fold f. replace (wleb (Some 0) (wadd (Some (- k)) (f i j))) with true; auto.
+    symmetry. apply wleb_spec. destruct (f i j); cbn [wadd wle] in *; auto. lia. }
+  rewrite E1 in W1, G1. set (m1 := tab n (upd_f f j i (- k))) in *.
+  assert (EQ1 : forall x y, mget m1 x y = f1 f i j k x y).
+  { intros x y. unfold m1. rewrite tab_ext; auto. apply upd_support; auto. }
+  (* second edge *)
+  cbn [zwf] in W1.
+  destruct (add_edge_m_spec_g n m1 (bar i) (bar j) (- k) W1 Hbi Hbj) as [W3 G3].
+  assert (E3 : add_edge_m n m1 (bar i, bar j, - k) = ZM (tab n (upd_f (mget m1) (bar i) (bar j) (- k)))).
+  { unfold add_edge_m. replace (wleb (Some 0) (wadd (Some (- k)) (mget m1 (bar j) (bar i)))) with true; auto.
+    symmetry. apply wleb_spec. rewrite EQ1. unfold f1, upd_f.
+    rewrite <- (Co i j). pose proof (Sc i j) as S3. fold f in S3.
+    destruct (f i j) as [kij|], (f (bar j) j) as [uj|], (f i (bar i)) as [ui|]; cbn [wadd wmin whalf wle] in *; try lia; try tauto.
+    pose proof (Z.mul_div_le (ui + uj) 2 ltac:(lia)). lia. }
+  rewrite E3 in W3, G3. set (m3 := tab n (upd_f (mget m1) (bar i) (bar j) (- k))) in *.
+  cbn [zwf] in W3. cbn [ggam] in G1, G3.
+  assert (EQ3 : forall x y, mget m3 x y = f3 f i j k x y).
+  { intros x y. unfold m3. rewrite tab_ext by (apply upd_support; apply W1).
+    unfold f3. apply upd_f_ext. exact EQ1. }
+  (* coherence by symmetry of the solutions *)
+  assert (Co3 : coherent (mget m3)).
+  { apply (coherent_of_flip n m3 En W3). intros g G. apply G3 in G. destruct G as [G e2].
+    apply G1 in G. destruct G as [G e1]. apply G3. split; [apply G1; split|].
+    - apply coherent_flip; auto.
+    - unfold flip. lia.
+    - unfold flip. rewrite !bar_invol. lia. }
+  (* feasibility by the parity argument *)
+  assert (Fe3 : feasible (mget m3)).
+  { assert (D3 : forall a, wle (Some 0) (wadd (f3 f i j k a (bar a)) (f3 f i j k (bar a) a))).
+    { intros a. rewrite <- !EQ3. destruct W3 as [S3 [D3 C3]]. pose proof (C3 a a (bar a)) as T.
+      destruct (Nat.lt_ge_cases a n) as [Ha|Ha].
+      - rewrite D3 in T by auto. exact T.
+      - rewrite (S3 a (bar a)) by auto. exact I. }
+    pose proof (f3_feasible f C Co Ti Sc i j k K D3) as F. intros a. specialize (F a).
+    unfold uhalf in *. rewrite !EQ3. exact F. }
+  destruct (oct_inhabited n m3 En W3 Co3 Fe3) as [s G]. exists s.
+  apply G3 in G. destruct G as [G e2]. apply G1 in G. destruct G as [G e1]. split; auto. lia.
+Qed.
+
+(* entries are attained / unbounded *)
+Corollary oct_entry_attained n m i j k : Nat.even n = true -> owf n m -> (i < n)%nat -> (j < n)%nat ->
+  mget m i j = Some k -> exists s, gfun (mget m) (oval s) /\ oval s j - oval s i = k.
+Proof.
+  intros En W Hi Hj E. destruct (oct_entry_ge n m i j k En W Hi Hj) as [s [G H]].
+  { rewrite E. cbn [wle]. lia. }
+  exists s. split; auto. specialize (G _ _ _ E). lia.
+Qed.
+
+Lemma oct_entry_le n a c : Nat.even n = true -> owf n a -> support n (mget c) ->
+  (forall s, gfun (mget a) (oval s) -> gfun (mget c) (oval s)) ->
+  forall i j, wle (mget a i j) (mget c i j).
+Proof.
+  intros En W S H i j. destruct (mget c i j) as [k|] eqn:E; [|destruct (mget a i j); exact I].
+  assert (Hi : (i < n)%nat). { destruct (Nat.lt_ge_cases i n); auto. rewrite S in E by lia. discriminate. }
+  assert (Hj : (j < n)%nat). { destruct (Nat.lt_ge_cases j n); auto. rewrite S in E by lia. discriminate. }
+  destruct (mget a i j) as [ka|] eqn:A; cbn [wle].
+  - destruct (oct_entry_attained n a i j ka En W Hi Hj A) as [s [G X]].
+    specialize (H s G _ _ _ E). lia.
+  - destruct (oct_entry_ge n a i j (k + 1) En W Hi Hj) as [s [G X]]; [rewrite A; exact I|].
+    specialize (H s G _ _ _ E). lia.
+Qed.
+
+(* ------------------------------------------------------------------ the operations keep the invariant and are exact *)
+Lemma o_top_owf n : Nat.even n = true -> ozwf n (o_top n).
+Proof.
+  intros En. unfold o_top. pose proof (z_top_wf n) as W. cbn [z_top zwf ozwf] in *.
+  set (m := tab n (fun i j => if Nat.eqb i j then Some 0 else None)) in *.
+  assert (E : forall i j, mget m i j = if ((i <? n) && (j <? n))%nat then (if Nat.eqb i j then Some 0 else None) else None).
+  { intros. unfold m. apply mget_tab. }
+  assert (Off : forall i j, i <> j -> mget m i j = None).
+  { intros i j N. rewrite E. destruct ((i <? n) && (j <? n))%nat; auto.
+    destruct (Nat.eqb_spec i j); congruence. }
+  split; auto. split; [|split].
+  - intros i j. rewrite !E.
+    assert (X : ((bar j <? n) && (bar i <? n))%nat = ((i <? n) && (j <? n))%nat).
+    { pose proof (bar_lt n i En). pose proof (bar_lt n j En).
+      destruct (Nat.ltb_spec i n), (Nat.ltb_spec j n), (Nat.ltb_spec (bar i) n), (Nat.ltb_spec (bar j) n);
+        simpl; auto; lia. }
+    rewrite X. destruct ((i <? n) && (j <? n))%nat; auto.
+    destruct (Nat.eqb_spec i j), (Nat.eqb_spec (bar j) (bar i)); auto.
+    + subst. congruence.
+    + apply bar_inj in e. congruence.
+  - intros i k H. rewrite Off in H; [discriminate|]. intros X. symmetry in X. apply (bar_neq i X).
+  - intros i j. rewrite (Off i (bar i)); [|intros X; symmetry in X; apply (bar_neq i X)].
+    cbn [wadd whalf]. destruct (mget m i j); exact I.
+Qed.
+
+Definition mirror_closed (es : list edge) : Prop :=
+  forall g, Forall (gedge_holds g) es -> Forall (gedge_holds (flip g)) es.
+
+Lemma oct_leq_edges_mirror ts k es : ts <> [] -> oct_leq_edges ts k = Some es -> mirror_closed es.
+Proof.
+  unfold oct_leq_edges. destruct ts as [|[c x] [|[d y] [|]]]; try discriminate; try congruence; intros _.
+  - destruct (unit_coef c); [|discriminate]. intros H. inversion H; subst. intros g F.
+    inversion F as [|? ? A B]; subst. repeat constructor. unfold gedge_holds, flip in *.
+    rewrite bar_invol. lia.
+  - destruct (unit_coef c && unit_coef d); [|discriminate]. intros H. inversion H; subst. intros g F.
+    inversion F as [|? ? A B]; subst. inversion B as [|? ? A' B']; subst.
+    repeat constructor; unfold gedge_holds, flip in *; rewrite !bar_invol; lia.
+Qed.
+
+Lemma oct_edges_mirror c es : le_terms (lc_exp c) <> [] -> oct_edges c = Some es -> mirror_closed es.
+Proof.
+  intros NE. unfold oct_edges. destruct (lc_kind c).
+  - destruct (oct_leq_edges (le_terms (lc_exp c)) (le_cst (lc_exp c))) as [e1|] eqn:E1; [|discriminate].
+    destruct (oct_leq_edges (neg_terms (le_terms (lc_exp c))) (- le_cst (lc_exp c))) as [e2|] eqn:E2; [|discriminate].
+    intros H. inversion H; subst. intros g F. apply Forall_app in F. destruct F as [F1 F2]. apply Forall_app. split.
+    + apply (oct_leq_edges_mirror _ _ _ NE E1); auto.
+    + refine (oct_leq_edges_mirror _ _ _ _ E2 g F2). unfold neg_terms. destruct (le_terms (lc_exp c)); simpl; congruence.
+  - discriminate.
+  - intros H. apply (oct_leq_edges_mirror _ _ _ NE H).
+  - intros H. apply (oct_leq_edges_mirror _ _ _ NE H).
+Qed.
+
+
+Lemma gedge_oedge s es : Forall (gedge_holds (oval s)) es <-> Forall (oedge_holds s) es.
+Proof. split; apply Forall_impl; intros [[a b] w]; auto. Qed.
+
+(* closing after adding mirror-closed edges: invariant and exact meaning *)
+Lemma close_after_edges n m es : Nat.even n = true -> owf n m -> Forall (edge_in n) es ->
+  mirror_closed es ->
+  ozwf n (o_close n (add_edges n (ZM m) es)) /\
+  forall s, ogamma (o_close n (add_edges n (ZM m) es)) s <->
+            (gfun (mget m) (oval s) /\ Forall (oedge_holds s) es).
+Proof.
+  intros En W F MC. destruct W as [Wm [Co _]].
+  destruct (add_edges_spec_g n es (ZM m) Wm F) as [W2 G2].
+  assert (G2' : forall g, ggam g (add_edges n (ZM m) es) <-> (gfun (mget m) g /\ Forall (gedge_holds g) es)).
+  { intros g. rewrite G2. cbn [ggam]. split; intros [A B]; split; auto;
+      revert B; apply Forall_impl; intros [[a b] w]; auto. }
+  destruct (add_edges n (ZM m) es) as [|m2] eqn:E2.
+  - split; [exact I|]. intros s. cbn [o_close]. unfold ogamma. rewrite <- gedge_oedge, <- G2'. tauto.
+  - cbn [zwf] in W2. assert (Co2 : coherent (mget m2)).
+    { apply (coherent_of_flip n m2 En W2). intros g G. change (ggam (flip g) (ZM m2)).
+      apply (G2' (flip g)). change (ggam g (ZM m2)) in G. apply (G2' g) in G.
+      destruct G as [A B]. split; [apply coherent_flip; auto|apply MC; auto]. }
+    split; [apply o_close_owf; auto|]. intros s.
+    rewrite (o_close_gamma n m2 En W2 s). rewrite <- gedge_oedge. apply (G2' (oval s)).
+Qed.
+
+Theorem o_add_spec n c z : Nat.even n = true -> o_ok n c -> ozwf n z ->
+  ozwf n (o_add n c z) /\ forall s, ogamma (o_add n c z) s <-> (ogamma z s /\ sat c s).
+Proof.
+  intros En [NE [es [E F]]] W. unfold o_add. rewrite E. destruct z as [|m].
+  - replace (add_edges n ZBot es) with ZBot.
+    + split; [exact I|]. intros s. unfold ogamma. cbn. tauto.
+    + clear. induction es; simpl; auto.
+  - destruct (close_after_edges n m es En W F (oct_edges_mirror c es NE E)) as [W' G].
+    split; auto. intros s. rewrite G. rewrite <- (oct_edges_spec c es s E). unfold ogamma. cbn [ggam]. tauto.
+Qed.
+
+Theorem o_assume_spec n cs : Nat.even n = true -> forall z,
+  Forall (o_ok n) cs -> ozwf n z ->
+  ozwf n (o_assume n cs z) /\
+  forall s, ogamma (o_assume n cs z) s <-> (ogamma z s /\ Forall (fun c => sat c s) cs).
+Proof.
+  intros En. unfold o_assume. induction cs as [|c r IH]; intros z F W; simpl.
+  - split; auto. intros s. split; [intros; split; auto|tauto].
+  - inversion F; subst. destruct (o_add_spec n c z En H1 W) as [W1 G1].
+    destruct (IH _ H2 W1) as [W2 G2]. split; auto.
+    intros s. rewrite G2, G1. split.
+    + intros [[A B] Cc]. split; auto.
+    + intros [A B]. inversion B; subst. tauto.
+Qed.
+
+Theorem o_entails_exact n c z : Nat.even n = true -> ozwf n z -> o_ok n c ->
+  (o_entails c z = true <-> forall s, ogamma z s -> sat c s).
+Proof.
+  intros En W [NE [es [E F]]]. split; [intros H s G; eapply o_entails_sound; eauto|].
+  intros H. unfold o_entails. destruct z as [|m]; auto. rewrite E. apply forallb_forall.
+  intros [[a b] w] I. apply wleb_spec. rewrite Forall_forall in F. destruct (F _ I) as [Ha Hb].
+  destruct (mget m a b) as [k|] eqn:M; cbn [wle].
+  - destruct (Z_le_gt_dec k w); auto. exfalso.
+    destruct (oct_entry_attained n m a b k En W Ha Hb M) as [s [G X]].
+    pose proof (proj1 (oct_edges_spec c es s E) (H s G)) as Y. rewrite Forall_forall in Y.
+    specialize (Y _ I). simpl in Y. lia.
+  - destruct (oct_entry_ge n m a b (w + 1) En W Ha Hb) as [s [G X]]; [rewrite M; cbn [wle]; trivial|].
+    pose proof (proj1 (oct_edges_spec c es s E) (H s G)) as Y. rewrite Forall_forall in Y.
+    specialize (Y _ I). simpl in Y. lia.
+Qed.
+
+(* ---- join *)
+Theorem o_join_owf n a b : ozwf n a -> ozwf n b -> ozwf n (o_join n a b).
+Proof.
+  unfold o_join. destruct a as [|x], b as [|y]; cbn [z_join ozwf]; auto.
+  intros [Wx [Cx [Tx Sx]]] [Wy [Cy [Ty Sy]]].
+  pose proof (z_join_wf n (ZM x) (ZM y) Wx Wy) as W. cbn [z_join zwf] in W.
+  set (m := tab n (fun i j => wmax (mget x i j) (mget y i j))) in *.
+  assert (E : forall i j, mget m i j = wmax (mget x i j) (mget y i j)).
+  { intros i j. unfold m. apply tab_ext. intros i' j' H. rewrite (proj1 Wx) by auto. reflexivity. }
+  split; auto. split; [|split].
+  - intros i j. rewrite !E. rewrite (Cx i j), (Cy i j). reflexivity.
+  - intros i k. rewrite E. destruct (mget x i (bar i)) as [a|] eqn:Ea, (mget y i (bar i)) as [b|] eqn:Eb;
+      cbn [wmax]; try discriminate. intros H. inversion H.
+    destruct (Tx i a Ea) as [ha ->]. destruct (Ty i b Eb) as [hb ->].
+    destruct (Z.max_spec (2 * ha) (2 * hb)) as [[_ M]|[_ M]]; rewrite M; eauto.
+  - intros i j. rewrite !E. pose proof (Sx i j) as S1. pose proof (Sy i j) as S2.
+    revert S1 S2.
+    generalize (mget x i j) (mget y i j) (mget x i (bar i)) (mget y i (bar i)) (mget x (bar j) j) (mget y (bar j) j).
+    intros a1 b1 a2 b2 a3 b3.
+    destruct a1 as [a1|], b1 as [b1|], a2 as [a2|], b2 as [b2|], a3 as [a3|], b3 as [b3|];
+      cbn [wmax wadd whalf wle]; try tauto; intros S1 S2.
+    assert ((a2 + a3) / 2 <= (Z.max a2 b2 + Z.max a3 b3) / 2) by (apply Z.div_le_mono; lia).
+    assert ((b2 + b3) / 2 <= (Z.max a2 b2 + Z.max a3 b3) / 2) by (apply Z.div_le_mono; lia).
+    lia.
+Qed.
+
+Theorem o_join_least n a b c : Nat.even n = true -> ozwf n a -> ozwf n b -> zdim n c ->
+  (forall s, ogamma a s -> ogamma c s) -> (forall s, ogamma b s -> ogamma c s) ->
+  forall s, ogamma (o_join n a b) s -> ogamma c s.
+Proof.
+  intros En Wa Wb Dc Ha Hb s. unfold o_join. destruct a as [|x]; [cbn [z_join]; auto|].
+  destruct b as [|y]; [cbn [z_join]; auto|]. cbn [z_join].
+  - destruct c as [|z].
+    + destruct (oct_inhabited n x En (proj1 Wa) (proj1 (proj2 Wa)) (owf_feasible n x Wa)) as [s0 G0].
+      destruct (Ha s0 G0).
+    + unfold ogamma. cbn [ggam]. intros G i j k E.
+      pose proof (oct_entry_le n x z En Wa Dc Ha i j) as L1.
+      pose proof (oct_entry_le n y z En Wb Dc Hb i j) as L2.
+      rewrite E in L1, L2. pose proof (G i j) as G1. rewrite mget_tab in G1.
+      assert (Hij : ((i <? n) && (j <? n))%nat = true).
+      { destruct (Nat.ltb_spec i n), (Nat.ltb_spec j n); auto; rewrite Dc in E by lia; discriminate. }
+      rewrite Hij in G1. destruct (mget x i j), (mget y i j); cbn [wmax wle] in *; try tauto.
+      specialize (G1 _ eq_refl). lia.
+Qed.
+
+(* ---- meet *)
+Lemma meet_fold_g n y : forall ps acc,
+  (forall p, In p ps -> (fst p < n /\ snd p < n)%nat) -> zwf n acc ->
+  let r := fold_left (fun acc p => match mget y (fst p) (snd p) with
+                                   | Some k => add_edge n acc (fst p, snd p, k)
+                                   | None => acc end) ps acc in
+  zwf n r /\
+  (forall g, ggam g r <-> (ggam g acc /\
+     forall p k, In p ps -> mget y (fst p) (snd p) = Some k -> g (snd p) - g (fst p) <= k)).
+Proof.
+  induction ps as [|p ps IH]; intros acc R W; simpl.
+  - split; auto. intros g. split; [intros; split; auto; intros ? ? []|tauto].
+  - destruct (mget y (fst p) (snd p)) as [k|] eqn:E.
+    + assert (X : zwf n (add_edge n acc (fst p, snd p, k)) /\
+                  forall g, ggam g (add_edge n acc (fst p, snd p, k)) <-> (ggam g acc /\ g (snd p) - g (fst p) <= k)).
+      { destruct acc as [|ma]; cbn [add_edge]; [split; [exact I|]; intros; cbn; tauto|].
+        apply add_edge_m_spec_g; auto; apply R; left; auto. }
+      destruct X as [W1 G1].
+      destruct (IH _ (fun q I => R q (or_intror I)) W1) as [W2 G2]. split; auto.
+      intros g. rewrite G2, G1. split.
+      * intros [[A B] Cc]. split; auto. intros q k' [<-|I] F; [|eauto]. rewrite E in F. inversion F; subst; auto.
+      * intros [A B]. split; [split; auto|]. intros q k' I F. apply (B q k'); auto.
+    + destruct (IH _ (fun q I => R q (or_intror I)) W) as [W2 G2]. split; auto.
+      intros g. rewrite G2. split.
+      * intros [A B]. split; auto. intros q k' [<-|I] F; [congruence|eauto].
+      * intros [A B]. split; auto.
+Qed.
+
+Lemma z_meet_spec_g n x y : mwf n x -> mwf n y ->
+  zwf n (z_meet n (ZM x) (ZM y)) /\
+  forall g, ggam g (z_meet n (ZM x) (ZM y)) <-> (gfun (mget x) g /\ gfun (mget y) g).
+Proof.
+  intros Wx Wy. cbn [z_meet].
+  destruct (meet_fold_g n y (pairs n) (ZM x)) as [W G]; auto.
+  { intros [i j] I. apply in_pairs in I. auto. }
+  split; auto. intros g. rewrite G. cbn [ggam]. split.
+  - intros [A B]. split; auto. intros i j k E.
+    assert (I : In (i, j) (pairs n)).
+    { apply in_pairs. destruct Wy as [Sy _].
+      destruct (Nat.lt_ge_cases i n), (Nat.lt_ge_cases j n); auto; rewrite Sy in E by lia; discriminate. }
+    apply (B (i, j) k I E).
+  - intros [A B]. split; auto.
+Qed.
+
+Theorem o_meet_spec n a b : Nat.even n = true -> ozwf n a -> ozwf n b ->
+  ozwf n (o_meet n a b) /\ forall s, ogamma (o_meet n a b) s <-> (ogamma a s /\ ogamma b s).
+Proof.
+  intros En Wa Wb. unfold o_meet. destruct a as [|x]; [|destruct b as [|y]].
+  - cbn. split; [exact I|]. intros s. unfold ogamma. cbn. tauto.
+  - cbn. split; [exact I|]. intros s. unfold ogamma. cbn. tauto.
+  - destruct Wa as [Wx [Cx _]], Wb as [Wy [Cy _]].
+    destruct (z_meet_spec_g n x y Wx Wy) as [W G].
+    destruct (z_meet n (ZM x) (ZM y)) as [|m2] eqn:E2.
+    + split; [exact I|]. intros s. cbn [o_close]. unfold ogamma. rewrite (G (oval s)). cbn [ggam]. tauto.
+    + cbn [zwf] in W. assert (Co2 : coherent (mget m2)).
+      { apply (coherent_of_flip n m2 En W). intros g Gg. change (ggam (flip g) (ZM m2)). apply (G (flip g)).
+        change (ggam g (ZM m2)) in Gg. apply (G g) in Gg. destruct Gg. split; apply coherent_flip; auto. }
+      split; [apply o_close_owf; auto|]. intros s. rewrite (o_close_gamma n m2 En W s).
+      unfold ogamma. cbn [ggam]. apply (G (oval s)).
+Qed.
+
+(* ---- forget *)
+Lemma forget_m_entries n m p : support n (mget m) ->
+  forall i j, mget (forget_m n m p) i j = forget_f (mget m) p i j.
+Proof.
+  intros S i j. unfold forget_m. change (mget (tab n (forget_f (mget m) p)) i j = forget_f (mget m) p i j).
+  apply tab_ext. intros i' j' H. unfold forget_f. rewrite (S i' j') by auto.
+  destruct (Nat.eqb i' j'); auto. destruct (Nat.eqb i' p || Nat.eqb j' p); auto.
+Qed.
+
+Lemma forget_m_mwf n m p : mwf n m -> mwf n (forget_m n m p).
+Proof.
+  intros [S [D C]]. split; [apply tab_support|]. split.
+  - intros i Hi. rewrite forget_m_entries by auto. unfold forget_f. rewrite Nat.eqb_refl. auto.
+  - intros i j k. rewrite !forget_m_entries by auto. apply (forget_closed (mget m) p C).
+Qed.
+
+Theorem o_forget1_owf n z v : ozwf n z -> ozwf n (o_forget1 n z v).
+Proof.
+  destruct z as [|m]; cbn [o_forget1 ozwf]; auto. intros [Wm [Co [Ti Sc]]].
+  pose proof (forget_m_mwf n m (pnode v) Wm) as W1.
+  pose proof (forget_m_mwf n _ (nnode v) W1) as W2.
+  set (m2 := forget_m n (forget_m n m (pnode v)) (nnode v)) in *.
+  assert (E : forall i j, mget m2 i j = forget_f (forget_f (mget m) (pnode v)) (nnode v) i j).
+  { intros i j. unfold m2. rewrite forget_m_entries by apply W1. unfold forget_f at 1 3.
+    rewrite !forget_m_entries by apply Wm. reflexivity. }
+  assert (Bx : forall i, (Nat.eqb (bar i) (pnode v) || Nat.eqb (bar i) (nnode v)) =
+                         (Nat.eqb i (pnode v) || Nat.eqb i (nnode v))).
+  { intros i. destruct (Nat.eqb_spec i (pnode v)) as [->|N1].
+    - rewrite bar_pnode, Nat.eqb_refl. rewrite orb_true_r. reflexivity.
+    - destruct (Nat.eqb_spec i (nnode v)) as [->|N2].
+      + rewrite bar_nnode, Nat.eqb_refl. reflexivity.
+      + destruct (Nat.eqb_spec (bar i) (pnode v)) as [X|X].
+        { exfalso. apply N2. rewrite <- (bar_invol i), X. apply bar_pnode. }
+        destruct (Nat.eqb_spec (bar i) (nnode v)) as [Y|Y]; auto.
+        exfalso. apply N1. rewrite <- (bar_invol i), Y. apply bar_nnode. }
+  (* the explicit shape of the entries *)
+  assert (SH : forall i j, mget m2 i j =
+             if Nat.eqb i j then mget m i j
+             else if (Nat.eqb i (pnode v) || Nat.eqb i (nnode v)) || (Nat.eqb j (pnode v) || Nat.eqb j (nnode v))
+                  then None else mget m i j).
+  { intros i j. rewrite E. unfold forget_f. destruct (Nat.eqb i j); auto.
+    destruct (Nat.eqb i (pnode v)), (Nat.eqb i (nnode v)), (Nat.eqb j (pnode v)), (Nat.eqb j (nnode v)); reflexivity. }
+  split; auto. split; [|split].
+  - intros i j. rewrite !SH. rewrite !Bx. rewrite (Co i j).
+    destruct (Nat.eqb_spec i j) as [->|N].
+    + rewrite Nat.eqb_refl. reflexivity.
+    + destruct (Nat.eqb_spec (bar j) (bar i)) as [X|X]; [apply bar_inj in X; congruence|].
+      rewrite (orb_comm (Nat.eqb j (pnode v) || Nat.eqb j (nnode v))). reflexivity.
+  - intros i k. rewrite SH. pose proof (bar_neq i) as N. destruct (Nat.eqb_spec i (bar i)); [congruence|].
+    destruct (_ || _); [discriminate|]. apply Ti.
+  - intros i j. rewrite !SH. rewrite !Bx. pose proof (bar_neq i) as Ni. pose proof (bar_neq j) as Nj.
+    destruct (Nat.eqb_spec i (bar i)); [congruence|]. destruct (Nat.eqb_spec (bar j) j); [congruence|].
+    pose proof (Sc i j) as S0.
+    destruct (Nat.eqb i (pnode v) || Nat.eqb i (nnode v)) eqn:Xi;
+      destruct (Nat.eqb j (pnode v) || Nat.eqb j (nnode v)) eqn:Xj; cbn [orb wadd whalf];
+      destruct (Nat.eqb_spec i j) as [->|N]; rewrite ?Xi, ?Xj in *; cbn [orb wadd whalf]; auto;
+      try (destruct (mget m j j); exact I); try exact I; try congruence.
+    + destruct (mget m i (bar i)); exact I.
+Qed.
+
+Theorem o_forget1_exact n z v s' : Nat.even n = true -> ozwf n z -> (nnode v < n)%nat ->
+  (ogamma (o_forget1 n z v) s' <-> exists s, ogamma z s /\ forall k, k <> v -> s' k = s k).
+Proof.
+  intros En W Hv. split.
+  - destruct z as [|m]; [intros []|]. unfold ogamma. cbn [o_forget1 ggam]. intros G.
+    pose proof W as [Wm [Co [Ti Sc]]]. pose proof Wm as [S [D C]].
+    set (L := filter (fun y => negb (N.eqb y v)) (map N.of_nat (seq 0 n))).
+    assert (NI : ~ In v L). { unfold L. rewrite filter_In, N.eqb_refl. intros [_ X]; discriminate. }
+    assert (SL : sat_onv (mget m) L s').
+    { intros i j k Ii Ij E. unfold L in Ii, Ij. rewrite filter_In in Ii, Ij.
+      destruct Ii as [_ Ni], Ij as [_ Nj]. apply negb_true_iff in Ni, Nj. apply N.eqb_neq in Ni, Nj.
+      apply (G i j k). rewrite forget_m_entries by (apply (forget_m_mwf n m (pnode v) Wm)).
+      unfold forget_f at 1. rewrite !forget_m_entries by auto. unfold forget_f.
+      assert (X : forall a, varof a <> v -> Nat.eqb a (pnode v) = false /\ Nat.eqb a (nnode v) = false).
+      { intros a Na. split; apply Nat.eqb_neq; intros ->; [rewrite varof_pnode in Na|rewrite varof_nnode in Na]; congruence. }
+      destruct (X i Ni) as [-> ->], (X j Nj) as [-> ->]. cbn [orb]. destruct (Nat.eqb i j); auto. }
+    pose proof (owf_feasible n m W (pnode v)) as Fe. rewrite bar_pnode in Fe.
+    destruct (oct_extend (mget m) n En C Co S L s' v NI SL Fe
+                (mwf_diag_nonneg n m Wm _) (mwf_diag_nonneg n m Wm _)) as [X HX].
+    exists (upd s' v X). split.
+    + intros i j k E.
+      destruct (Nat.lt_ge_cases i n), (Nat.lt_ge_cases j n); try (rewrite S in E by lia; discriminate).
+      assert (IN : forall a, (a < n)%nat -> In (varof a) (v :: L)).
+      { intros a Ha. destruct (N.eq_dec (varof a) v) as [->|Na]; [left; auto|right].
+        unfold L. rewrite filter_In. split; [apply var_range_in; auto|].
+        apply negb_true_iff. apply N.eqb_neq. auto. }
+      apply (HX i j k); auto.
+    + intros k Hk. symmetry. apply upd_other. auto.
+  - intros [s [G E]]. apply (o_forget1_sound n z v s s' G E).
+Qed.
+
+Theorem o_forget_owf n vs : forall z, ozwf n z -> ozwf n (o_forget n vs z).
+Proof.
+  unfold o_forget. induction vs as [|v r IH]; intros z W; simpl; auto.
+  apply IH. apply o_forget1_owf; auto.
+Qed.
+
+Theorem o_forget_exact n vs : Nat.even n = true -> forall z s', ozwf n z ->
+  Forall (fun v => (nnode v < n)%nat) vs ->
+  (ogamma (o_forget n vs z) s' <-> exists s, ogamma z s /\ store_eq_off vs s s').
+Proof.
+  intros En. unfold o_forget. induction vs as [|v r IH]; intros z s' W F; simpl.
+  - split.
+    + intros G. exists s'. split; auto. intros k _. auto.
+    + intros [s [G E]]. apply (ogamma_ext z s s'); auto. intros k. symmetry. apply E. auto.
+  - inversion F; subst. rewrite (IH _ _ (o_forget1_owf n z v W) H2). split.
+    + intros [s1 [G1 E1]]. apply (o_forget1_exact n z v s1 En W H1) in G1. destruct G1 as [s [G E]].
+      exists s. split; auto. intros k Hk. simpl in Hk. rewrite E1 by tauto. apply E. intros ->. tauto.
+    + intros [s [G E]]. exists (upd s v (s' v)). split.
+      * apply (o_forget1_exact n z v _ En W H1). exists s. split; auto.
+        intros k Hk. apply upd_other. auto.
+      * intros k Hk. unfold upd. destruct (N.eqb_spec k v); [subst; auto|]. apply E. simpl.
+        intros [X|X]; [congruence|tauto].
+Qed.
+
+(* ---- assignments *)
+Definition odelta (x : var) (k : Z) (i : nat) : Z :=
+  if Nat.eqb i (pnode x) then k else if Nat.eqb i (nnode x) then - k else 0.
+
+Lemma odelta_bar x k i : odelta x k (bar i) = - odelta x k i.
+Proof.
+  unfold odelta. destruct (Nat.eqb_spec i (pnode x)) as [->|N1].
+  - rewrite bar_pnode. destruct (Nat.eqb_spec (nnode x) (pnode x)) as [E|E].
+    + unfold pnode, nnode in E. lia.
+    + rewrite Nat.eqb_refl. reflexivity.
+  - destruct (Nat.eqb_spec i (nnode x)) as [->|N2].
+    + rewrite bar_nnode, Nat.eqb_refl. lia.
+    + destruct (Nat.eqb_spec (bar i) (pnode x)) as [X|X].
+      { exfalso. apply N2. rewrite <- (bar_invol i), X. apply bar_pnode. }
+      destruct (Nat.eqb_spec (bar i) (nnode x)) as [Y|Y]; [|reflexivity].
+      exfalso. apply N1. rewrite <- (bar_invol i), Y. apply bar_nnode.
+Qed.
+
+Lemma oshift_entries n m x k : support n (mget m) ->
+  forall i j, mget (oshift_m n m x k) i j = wadd (mget m i j) (Some (odelta x k j - odelta x k i)).
+Proof.
+  intros S i j. unfold oshift_m.
+  change (mget (tab n (fun i j => wadd (mget m i j) (Some (odelta x k j - odelta x k i)))) i j =
+          wadd (mget m i j) (Some (odelta x k j - odelta x k i))).
+  apply tab_ext. intros i' j' H. rewrite S by auto. reflexivity.
+Qed.
+
+Lemma oval_shift s x k q : oval (upd s x (s x + k)) q = oval s q + odelta x k q.
+Proof.
+  unfold odelta. destruct (Nat.eqb_spec q (pnode x)); [subst; rewrite !oval_pnode, upd_same; lia|].
+  destruct (Nat.eqb_spec q (nnode x)); [subst; rewrite !oval_nnode, upd_same; lia|].
+  rewrite (oval_other s (upd s x (s x + k)) x q); auto; [lia|]. intros k0 Hk. apply upd_other; auto.
+Qed.
+
+Lemma oshift_spec n m x k s' : support n (mget m) ->
+  (gfun (mget (oshift_m n m x k)) (oval s') <-> gfun (mget m) (oval (upd s' x (s' x - k)))).
+Proof.
+  intros S.
+  assert (V : forall q, oval (upd s' x (s' x - k)) q = oval s' q - odelta x k q).
+  { intros q. pose proof (oval_shift s' x (- k) q) as X. replace (s' x + - k) with (s' x - k) in X by lia.
+    rewrite X. unfold odelta. destruct (Nat.eqb q (pnode x)); [lia|]. destruct (Nat.eqb q (nnode x)); lia. }
+  split; intros G i j w E.
+  - pose proof (G i j (w + (odelta x k j - odelta x k i))) as G1. rewrite oshift_entries in G1 by auto.
+    rewrite E in G1. cbn [wadd] in G1. specialize (G1 eq_refl). rewrite !V. lia.
+  - rewrite oshift_entries in E by auto. destruct (mget m i j) as [w0|] eqn:F; cbn [wadd] in E; [|discriminate].
+    inversion E; subst. specialize (G _ _ _ F). rewrite !V in G. lia.
+Qed.
+
+Lemma oshift_owf n m x k : owf n m -> owf n (oshift_m n m x k).
+Proof.
+  intros [[S [D C]] [Co [Ti Sc]]].
+  assert (E : forall i j, mget (oshift_m n m x k) i j = wadd (mget m i j) (Some (odelta x k j - odelta x k i)))
+    by (apply oshift_entries; auto).
+  split; [split; [apply tab_support|split]|split; [|split]].
+  - intros i Hi. rewrite E, D by auto. cbn [wadd]. f_equal. lia.
+  - intros i j l. rewrite !E. pose proof (C i j l) as T. revert T.
+    generalize (mget m i j) (mget m i l) (mget m l j). wt_crush2.
+  - intros i j. rewrite !E. rewrite (Co i j), !odelta_bar. f_equal. f_equal. lia.
+  - intros i w. rewrite E. destruct (mget m i (bar i)) as [a|] eqn:Ea; cbn [wadd]; [|discriminate].
+    intros H. inversion H. destruct (Ti i a Ea) as [h ->]. rewrite odelta_bar.
+    exists (h - odelta x k i). lia.
+  - intros i j. rewrite !E. rewrite !odelta_bar. pose proof (Sc i j) as S0. revert S0.
+    generalize (mget m i j) (mget m i (bar i)) (mget m (bar j) j). intros a b c.
+    destruct a as [a|], b as [b|], c as [c|]; cbn [wadd whalf wle]; try tauto. intros S0.
+    replace (b + (- odelta x k i - odelta x k i) + (c + (odelta x k j - - odelta x k j)))
+      with (b + c + (odelta x k j - odelta x k i) * 2) by lia.
+    rewrite Z.div_add by lia. lia.
+Qed.
+
+Lemma pnode_lt n x : (nnode x < n)%nat -> (pnode x < n)%nat.
+Proof. unfold pnode, nnode. lia. Qed.
+
+Lemma o_ok_unary n x k : (nnode x < n)%nat -> o_ok n (mkLC EQ (mkLE [(1, x)] k)).
+Proof.
+  intros H. split; [simpl; congruence|]. eexists. split; [reflexivity|].
+  pose proof (pnode_lt n x H). repeat constructor; cbn [lit Z.eqb]; rewrite ?bar_pnode, ?bar_nnode; auto.
+Qed.
+
+Lemma o_ok_binary n x c y k : (nnode x < n)%nat -> (nnode y < n)%nat -> unit_coef c = true ->
+  o_ok n (mkLC EQ (mkLE [(1, x); (- c, y)] k)).
+Proof.
+  intros Hx Hy U. split; [simpl; congruence|].
+  pose proof (pnode_lt n x Hx). pose proof (pnode_lt n y Hy).
+  assert (U' : unit_coef (- c) = true).
+  { unfold unit_coef in *. destruct (Z.eqb_spec c 1); [subst; reflexivity|].
+    destruct (Z.eqb_spec c (-1)); [subst; reflexivity|discriminate]. }
+  assert (U'' : unit_coef (- - c) = true) by (rewrite Z.opp_involutive; auto).
+  unfold oct_edges, oct_leq_edges, neg_terms. cbn [lc_kind lc_exp le_terms le_cst map fst snd].
+  change (unit_coef 1) with true. change (unit_coef (-1)) with true. rewrite U', U''. cbn [andb].
+  eexists. split; [reflexivity|].
+  assert (L : forall d, (lit d y < n)%nat /\ (bar (lit d y) < n)%nat).
+  { intros d. unfold lit. destruct (d =? 1); rewrite ?bar_pnode, ?bar_nnode; auto. }
+  assert (Lx : forall d, (lit d x < n)%nat /\ (bar (lit d x) < n)%nat).
+  { intros d. unfold lit. destruct (d =? 1); rewrite ?bar_pnode, ?bar_nnode; auto. }
+  repeat constructor; cbn [app]; try apply L; try apply Lx.
+Qed.
+
+Theorem o_assign_spec n x e z : Nat.even n = true -> oa_ok n x e -> ozwf n z ->
+  ozwf n (o_assign n x e z) /\
+  forall s', ogamma (o_assign n x e z) s' <->
+             exists s, ogamma z s /\ store_eq s' (upd s x (eval_le e s)).
+Proof.
+  intros En [Hx F] W. unfold o_assign, eval_le.
+  pose proof (o_forget1_owf n z x W) as Wf.
+  assert (FG : forall s', ogamma (o_forget1 n z x) s' <-> exists s, ogamma z s /\ forall k, k <> x -> s' k = s k)
+    by (intros; apply o_forget1_exact; auto).
+  destruct F as [T|[c [y [T [U [Hy XY]]]]]]; rewrite T.
+  - (* x := k *)
+    destruct (o_add_spec n _ _ En (o_ok_unary n x (- le_cst e) Hx) Wf) as [W' G]. split; auto.
+    intros s'. rewrite G, FG. unfold sat, eval_le. cbn [lc_kind lc_exp le_terms le_cst eval_terms].
+    split.
+    + intros [[s [Gs E]] Eq]. exists s. split; auto. intros q. unfold upd.
+      destruct (N.eqb_spec q x); [subst; lia|]. apply E. auto.
+    + intros [s [Gs E]]. pose proof (E x) as Ex. rewrite upd_same in Ex. split; [|lia].
+      exists s. split; auto. intros q Hq. rewrite E. apply upd_other. auto.
+  - rewrite U. destruct (N.eqb_spec x y) as [<-|N].
+    + (* x := x + k *)
+      destruct XY as [XY|XY]; [congruence|]. subst c. cbn [Z.eqb].
+      destruct z as [|m]; [split; [exact I|]; intros s'; unfold ogamma; cbn; split; [tauto|intros [s [[] _]]]|].
+      split; [apply oshift_owf; auto|]. intros s'. unfold ogamma. cbn [ggam].
+      rewrite (oshift_spec n m x (le_cst e) s') by apply W. cbn [eval_terms]. split.
+      * intros G. exists (upd s' x (s' x - le_cst e)). split; auto. intros q. unfold upd.
+        destruct (N.eqb_spec q x); subst; rewrite ?N.eqb_refl; lia.
+      * intros [s [G E]]. refine (ogamma_ext (ZM m) s _ _ G). intros q. rewrite (E x), upd_same.
+        unfold upd. destruct (N.eqb_spec q x); [subst; lia|]. rewrite E. symmetry. apply upd_other. auto.
+    + (* x := c y + k *)
+      destruct (o_add_spec n _ _ En (o_ok_binary n x c y (- le_cst e) Hx Hy U) Wf) as [W' G]. split; auto.
+      intros s'. rewrite G, FG. unfold sat, eval_le. cbn [lc_kind lc_exp le_terms le_cst eval_terms].
+      split.
+      * intros [[s [Gs E]] Eq]. exists s. split; auto. intros q. unfold upd.
+        destruct (N.eqb_spec q x); [subst; rewrite <- (E y) by congruence; lia|]. apply E. auto.
+      * intros [s [Gs E]]. pose proof (E x) as Ex. rewrite upd_same in Ex.
+        pose proof (E y) as Ey. rewrite upd_other in Ey by congruence. split; [|lia].
+        exists s. split; auto. intros q Hq. rewrite E. apply upd_other. auto.
+Qed.
+
+(* ------------------------------------------------------------------ octagons are exact *)
+Theorem oct_exact_dom n : Nat.even n = true ->
+  exact_dom (oct_dom n) (ozwf n) ogamma (o_ok n) (oa_ok n) (fun v => (nnode v < n)%nat).
+Proof.
+  intros En. constructor; cbn [oct_dom g_top g_bot g_assume g_assign g_forget g_join g_meet].
+  - apply o_top_owf; auto.
+  - apply (sd_top _ _ _ (oct_sound_dom n)).
+  - exact I.
+  - intros s [].
+  - intros cs z F W. apply o_assume_spec; auto.
+  - intros x e z O W. apply o_assign_spec; auto.
+  - intros vs z F W. split; [apply o_forget_owf; auto|]. intros s'. apply o_forget_exact; auto.
+  - intros a b Wa Wb. split; [apply o_join_owf; auto|]. split.
+    + intros s. apply o_join_sound.
+    + intros c Wc. apply o_join_least; auto. destruct c; [exact I|apply Wc].
+  - intros a b Wa Wb. apply o_meet_spec; auto.
+Qed.
 
 (* Full statement of the octagon part of C12: there is an invariant, established by top and
    kept by every operation of the language, under which every operation is exact, bottom
@@ -366,6 +1597,43 @@ Definition C12_oct_exact_statement : Prop :=
     exact_dom (oct_dom n) wf ogamma (o_ok n) (oa_ok n) (fun v => (nnode v < n)%nat) /\
     (forall z, wf z -> (z_is_bot z = true <-> forall s, ~ ogamma z s)) /\
     (forall z c, wf z -> o_ok n c -> (o_entails c z = true <-> forall s, ogamma z s -> sat c s)).
+
+Theorem oct_exact : C12_oct_exact_statement.
+Proof.
+  intros n En. exists (ozwf n). split; [apply oct_exact_dom; auto|]. split.
+  - intros z W. apply (oct_bottom_exact n z En W).
+  - intros z c W O. apply (o_entails_exact n c z En W O).
+Qed.
+
+Theorem oct_history_invariant n : Nat.even n = true -> forall h rs,
+  Forall (ozwf n) rs ->
+  Forall (gop_ok (o_ok n) (oa_ok n) (fun v => (nnode v < n)%nat)) h ->
+  Forall (ozwf n) (grun (oct_dom n) rs h).
+Proof. intros H. exact (grun_wf (oct_dom n) (ozwf n) ogamma _ _ _ (oct_exact_dom n H)). Qed.
+
+Theorem oct_step_exact n : Nat.even n = true -> forall rs o,
+  Forall (ozwf n) rs -> gop_ok (o_ok n) (oa_ok n) (fun v => (nnode v < n)%nat) o ->
+  (gtarget o < length rs)%nat ->
+  step_spec (oct_dom n) (ozwf n) ogamma rs o (gget (oct_dom n) (gstep (oct_dom n) rs o) (gtarget o)).
+Proof. intros H. exact (gstep_exact (oct_dom n) (ozwf n) ogamma _ _ _ (oct_exact_dom n H)). Qed.
+
+(* the first sentence of the property, literally: assume any conjunction from top *)
+Theorem oct_conjunction_exact n cs : Nat.even n = true -> Forall (o_ok n) cs ->
+  let z := o_assume n cs (o_top n) in
+  (z_is_bot z = true <-> forall s, ~ Forall (fun c => sat c s) cs) /\
+  (forall c, o_ok n c ->
+     (o_entails c z = true <-> forall s, Forall (fun c => sat c s) cs -> sat c s)).
+Proof.
+  intros En F z. destruct (o_assume_spec n cs En (o_top n) F (o_top_owf n En)) as [W G]. fold z in W, G.
+  assert (T : forall s, ogamma (o_top n) s) by (apply (sd_top _ _ _ (oct_sound_dom n))).
+  split.
+  - rewrite (oct_bottom_exact n z En W). split.
+    + intros H s X. apply (H s). apply G. split; auto.
+    + intros H s X. apply G in X. apply (H s). tauto.
+  - intros c Oc. rewrite (o_entails_exact n c z En W Oc). split; intros H s X.
+    + apply H. apply G. split; auto.
+    + apply H. apply G in X. tauto.
+Qed.
 
 (* non-vacuity: integer tightening derives x <= 0 from x + y <= 1 and x - y <= 0, and detects
    that x + y = 1, x - y = 0 has no integer point *)
@@ -382,7 +1650,3 @@ Theorem oct_history_sound n h rs cs :
   grel (oct_dom n) ogamma (grun (oct_dom n) rs h) (fold_left cstepg h cs).
 Proof. exact (grun_sound (oct_dom n) ogamma (fun _ => True) (oct_sound_dom n) h rs cs). Qed.
 
-Theorem oct_exact_partial n :
-  sound_dom (oct_dom n) ogamma (fun _ => True) /\
-  (forall c z s, o_entails c z = true -> ogamma z s -> sat c s).
-Proof. exact (conj (oct_sound_dom n) o_entails_sound). Qed.
